@@ -197,7 +197,9 @@ func runC20(r *rt.Runner) {
 			fld("byName", tMap(key())),
 			fld("byNameSized", tMap(key()).with(func(t *jT) { t.Rules = &jRules{MinPairs: pU(1), MaxPairs: pU(5)} })),
 		}
-		b := elemsBundle(objDecl("Keys", fields...))
+		// the same as arms of a oneof (plain, required, optional)
+		arms := []*jF{fld("byId", key()), {Name: "byNeededId", T: key(), Req: true}, {Name: "byMaybeId", T: key(), Opt: true}}
+		b := elemsBundle(objDecl("Keys", fields...), &jElem{Decl: &jDecl{Kind: kOneof, Name: "Lookup", Fields: arms}})
 		src := b.sources()
 		det := srcDetail(src)
 		cp, err := compileBundlePackage(newMemBundle(src), "iso.v1")
@@ -215,7 +217,7 @@ func runC20(r *rt.Runner) {
 		}
 		for _, fd := range typedProtos(cp.Protos) {
 			for _, m := range fd.MessageType {
-				if m.GetName() != "Keys" {
+				if m.GetName() != "Keys" && m.GetName() != "Lookup" {
 					continue
 				}
 				for _, f := range m.Field {
